@@ -348,6 +348,11 @@ if mode == "remote_write":
     if not c2.isclosed():
         c2.close()
     try:
+        f.flush()
+        log.append(("late_flush", "harmless"))
+    except BaseException as e:
+        log.append(("late_flush", type(e).__name__))
+    try:
         f.write("late")
         log.append(("late_write", "accepted"))
     except OSError:
@@ -410,6 +415,14 @@ def run_pair(spec):
                     res.violation("file-close-vs-proxyclose", f"proxyclose={proxyclose} isclosed={c2.isclosed()}")
                 if not c2.isclosed():
                     c2.close()
+                # flush stays harmless whatever became of the channel (callers such as logging handlers, print(flush=True)
+                # or the interpreter's exit-time flush know nothing about channels)
+                for _ in range(2):
+                    try:
+                        f.flush()
+                    except BaseException as e:  # noqa
+                        res.violation(f"flush-raised-after-close:{type(e).__name__}", f"local, proxyclose={proxyclose}: {e}")
+                        break
                 try:
                     f.write("late")
                     res.violation("write-after-close-accepted", "local")
@@ -440,6 +453,8 @@ def run_pair(spec):
                     res.violation("written-items-differ", f"remote wrote {short(items)} got {short(got)}")
                 if log.get("closed_after_close") != proxyclose:
                     res.violation("file-close-vs-proxyclose", f"remote proxyclose={proxyclose} log={log}")
+                if log.get("late_flush") != "harmless":
+                    res.violation(f"flush-raised-after-close:{log.get('late_flush')}", "remote")
                 if log.get("late_write") != "OSError":
                     res.violation("write-after-close-accepted" if log.get("late_write") == "accepted" else f"write-after-close-wrong-exception:{log.get('late_write')}", "remote")
                 res.count("write_histories")
